@@ -25,6 +25,9 @@ pub(crate) struct NumberLoop {
     name: Option<Ident>,
     body: Block,
     name_is_collision: bool,
+    /// `make_*` instruction for a zero of the counter's kind, when the start value is of a
+    /// narrower kind than `start + step`: the counter then starts in the kind it will have.
+    widen_start_with: Option<u8>,
 }
 
 impl Dependencies for NumberLoop {
@@ -95,6 +98,14 @@ impl Compile for NumberLoop {
         let mut val_end = self.val_end.compile(state)?;
 
         result.append(&mut val_start);
+
+        if let Some(make_zero) = self.widen_start_with {
+            result.push(CompiledItem::Instruction {
+                id: make_zero,
+                arguments: Box::new(["0".to_owned()]),
+            });
+            result.push(instruction!(bin_op "+"));
+        }
 
         if self.name_is_collision {
             // the counter is an existing variable of the function, which can live in an
@@ -249,11 +260,30 @@ impl Parser {
                         let span = node.as_span();
                         let mut ident = Self::ident(node).to_err_vec()?;
 
-                        ident
-                            .link_force_no_inherit(
-                                input.user_data(),
-                                Cow::Owned(TypeLayout::Native(NativeType::Int)),
+                        // the counter has the kind of `start + step` (the step was parsed
+                        // before the name); ill-typed bounds and steps are reported below
+                        let step_ty = step
+                            .as_ref()
+                            .and_then(|(val, _)| {
+                                val.for_type(&TypecheckFlags::use_class(
+                                    input.user_data().get_type_of_executing_class(),
+                                ))
+                                .ok()
+                            })
+                            .unwrap_or(TypeLayout::Native(NativeType::Int));
+
+                        let counter_ty = start_ty
+                            .get_output_type(
+                                &step_ty,
+                                &BinaryOperation::Add,
+                                &TypecheckFlags::use_class(
+                                    input.user_data().get_type_of_executing_class(),
+                                ),
                             )
+                            .unwrap_or(TypeLayout::Native(NativeType::Int));
+
+                        ident
+                            .link_force_no_inherit(input.user_data(), Cow::Owned(counter_ty))
                             .to_err_vec()?;
 
                         // input.user_data().add_dependency(ident.clone());
@@ -377,6 +407,20 @@ impl Parser {
 
         let inclusive = inclusive_or_exclusive.as_rule() == Rule::number_loop_inclusive;
 
+        // MAKE_INT / MAKE_BIGINT / MAKE_FLOAT
+        let widen_start_with = match (
+            start_ty.get_type_recursively(),
+            step_output_type.get_type_recursively(),
+        ) {
+            (TypeLayout::Native(from), TypeLayout::Native(to)) if from != to => match to {
+                NativeType::Int => Some(0x09),
+                NativeType::BigInt => Some(0x08),
+                NativeType::Float => Some(0x0A),
+                _ => None,
+            },
+            _ => None,
+        };
+
         Ok(NumberLoop {
             body: body.unwrap(),
             name: name.map(|(name, _)| name),
@@ -385,6 +429,7 @@ impl Parser {
             val_end,
             inclusive,
             name_is_collision: name_is_collision.is_some(),
+            widen_start_with,
         })
     }
 }
